@@ -650,6 +650,8 @@ class Engine:
                 else:
                     sub, _ = self.find_module(name + "." + a.name)
                     if sub is None and (name + "." + a.name) not in self.stubs:
+                        if name in self.stubs:
+                            raise Unsupported(f"{name}.{a.name} is not modelled")
                         self.throw("ImportError", f"cannot import name {a.name} from {name}")
                     self.store_name(a.asname or a.name, self.load(name + "." + a.name))
 
@@ -2128,6 +2130,8 @@ class Engine:
             sub, _ = self.find_module(o.name + "." + name)
             if sub is not None and (o.name + "." + name) in self.modules:
                 return self.modules[o.name + "." + name]
+            if o.name in self.stubs:
+                raise Unsupported(f"{o.name}.{name} is not modelled")
             self.throw("AttributeError", f"module {o.name} has no attribute {name}")
         if isinstance(o, Obj):
             v = o.cls.lookup(name)
